@@ -145,14 +145,15 @@ class SubstituteVirtualLine(Contract):
     props = ("C03", "C02", "C08", "C09")
     fragment = "H"
     doc = ("a real line takes the place of its placeholder: it adopts the placeholder's Gfa, imports the references, then the placeholder is "
-           "unregistered and only after that the line is registered (so that the identifier never names two lines), each exactly once; if "
-           "importing the references raises, neither registry operation happens")
+           "unregistered and only after that the line is registered (so that the identifier never names two lines), each exactly once, and the replaced instance is left detached (no owner, "
+           "no share in the collections the new line adopted); if importing the references raises, neither registry operation happens")
 
     def cases(self, ctx):
         g = ctx.gfapy
         import_ok = z3.Bool("references_can_be_imported")
         s, prev, gfa = Obj(g.Line, "line"), Obj(g.Line, "previous"), Obj(g.Gfa, "gfa")
-        heap = {s.oid: {"_gfa": None}, prev.oid: {"gfa": gfa}, gfa.oid: {}}
+        shared_refs = Obj(None, "collections_of_the_placeholder")
+        heap = {s.oid: {"_gfa": None}, prev.oid: {"gfa": gfa, "_gfa": gfa, "_refs": shared_refs}, gfa.oid: {}, shared_refs.oid: {}}
         def m_import(E, st, pos, kw):
             ok_args = len(pos) == 2 and pos[1] is prev
             yield ("raise", Exc(g.NotUniqueError), [z3.Not(import_ok)], ev(st, "import_failed"))
@@ -169,8 +170,13 @@ class SubstituteVirtualLine(Contract):
             own = st.attrs(s).get("_gfa")
             if kd == "raise":
                 return z3.And(z3.BoolVal(e == ("import_failed",)), z3.Not(import_ok))
-            return z3.And(z3.BoolVal(e == ("import", "unregister_previous", "register_self")), import_ok, z3.BoolVal(isinstance(own, Obj) and own.oid == gfa.oid))
-        return [Case("order", [s, prev], post, heap=heap, models=models, symbols=dict(references_can_be_imported=import_ok), expect_paths=2)]
+            # the replaced line is detached: it no longer names the Gfa as its owner and no longer holds the collections the new line adopted
+            pa = st.attrs(prev)
+            detached = pa.get("_gfa") is None and not (isinstance(pa.get("_refs"), Obj) and pa.get("_refs").oid == shared_refs.oid)
+            return z3.And(z3.BoolVal(e == ("import", "unregister_previous", "register_self")), import_ok, z3.BoolVal(isinstance(own, Obj) and own.oid == gfa.oid),
+                          z3.BoolVal(detached))
+        return [Case("order", [s, prev], post, heap=heap, models=models, symbols=dict(references_can_be_imported=import_ok), expect_paths=2,
+                     replay=lambda w: {"target": "bounded.replay_helpers:replaced_line_cases"}, confirm=battery_confirm)]
 
 
 @register
